@@ -79,12 +79,14 @@ func (o Option) IsEmpty() bool {
 // 可选参数 map
 type Options map[Tag]Option
 
-func (o Options) Add(opt Option) {
-	if o == nil {
-		o = make(Options)
+// Add stores opt under its tag. The receiver is a pointer so that adding to a nil Options allocates
+// the map for the caller (like smpp.TLVs.SetTLV) instead of filling a map that is then dropped.
+func (o *Options) Add(opt Option) {
+	if *o == nil {
+		*o = make(Options)
 	}
 
-	o[Tag(opt.tag)] = opt
+	(*o)[Tag(opt.tag)] = opt
 }
 
 func (o Options) String() string {
